@@ -85,7 +85,7 @@ func genC12(t *rapid.T) c12Case {
 	// focus concentrates the clients on one id and one family of operations
 	// (more overlapping requests on the same thing per case)
 	focus := rapid.SampledFrom([]string{"mixed", "mixed", "rules", "facts"}).Draw(t, "focus")
-	kinds := []string{"addFact", "addFact", "addFact", "remFact", "getFact", "getFact", "search", "addRule", "remRule", "disable", "enable", "event", "isEnabled", "getRule"}
+	kinds := []string{"addFact", "addFact", "addFact", "remFact", "getFact", "getFact", "search", "searchKind", "addRule", "remRule", "disable", "enable", "event", "isEnabled", "getRule"}
 	factIds, ruleIds := c12FactIds, c12RuleIds
 	maxClients := 8
 	switch focus {
@@ -94,7 +94,7 @@ func genC12(t *rapid.T) c12Case {
 		ruleIds = []string{rapid.SampledFrom(c12RuleIds).Draw(t, "focusId")}
 		maxClients = 4
 	case "facts":
-		kinds = []string{"addFact", "addFact", "remFact", "remFact", "getFact", "search"}
+		kinds = []string{"addFact", "addFact", "remFact", "remFact", "getFact", "search", "searchKind", "searchKind"}
 		factIds = []string{rapid.SampledFrom(c12FactIds).Draw(t, "focusId")}
 		maxClients = 4
 	}
@@ -128,6 +128,15 @@ func genC12(t *rapid.T) c12Case {
 		c.Repeat = rapid.SampledFrom([]int{1, 3, 10}).Draw(t, "repeat")
 	}
 	return c
+}
+
+// c12Kind: the second property of a fact, one of two values, a function of
+// the fact's (unique) value.
+func c12Kind(v string) string {
+	if n := len(v); n > 0 && (v[n-1]-'0')%2 == 0 {
+		return "ka"
+	}
+	return "kb"
 }
 
 // sequential model --------------------------------------------------------
@@ -214,6 +223,15 @@ func c12Step(st interface{}, in interface{}, out interface{}) (bool, interface{}
 		var rows []string
 		for id, v := range s.Facts {
 			rows = append(rows, id+"="+v)
+		}
+		sort.Strings(rows)
+		return o.Err == "" && o.Res == strings.Join(rows, ","), s
+	case "searchKind":
+		var rows []string
+		for id, v := range s.Facts {
+			if c12Kind(v) == "ka" {
+				rows = append(rows, id)
+			}
 		}
 		sort.Strings(rows)
 		return o.Err == "" && o.Res == strings.Join(rows, ","), s
@@ -308,8 +326,21 @@ func c12ExecNoisy(loc *core.Location, in c12In, noise *schedNoise) c12Out {
 	}
 	switch in.K {
 	case "addFact":
-		_, err := loc.AddFact(ctx, in.Id, core.Map{"v": in.V})
+		_, err := loc.AddFact(ctx, in.Id, core.Map{"v": in.V, "kind": c12Kind(in.V)})
 		return c12Out{Err: errStr(err)}
+	case "searchKind":
+		// a search for a value: overwritten facts leave entries for
+		// their old values behind in the term index
+		srs, err := loc.SearchFacts(ctx, core.Map{"kind": "ka"}, false)
+		if err != nil {
+			return c12Out{Err: errStr(err)}
+		}
+		var rows []string
+		for _, sr := range srs.Found {
+			rows = append(rows, sr.Id)
+		}
+		sort.Strings(rows)
+		return c12Out{Res: strings.Join(rows, ",")}
 	case "remFact":
 		_, err := loc.RemFact(ctx, in.Id)
 		return c12Out{Err: errStr(err)}
